@@ -473,3 +473,66 @@ def generic_replay(mod, ctx, data):
     print('observation:', json.dumps(obs[0], default=repr)[:3000])
     if std_obs_check(ctx, case, obs[0]):
         mod.judge(ctx, setup, case, obs[0])
+
+
+# ---------------------------------------------------------------------------
+# child-side reporter (for high-volume checks that judge inside the child,
+# next to the real objects) and its parent-side counterpart
+
+class ChildRep(object):
+    def __init__(self, max_bad=40):
+        self.bads = []
+        self.nbad = 0
+        self.stats = {}
+        self.keys = set()
+        self.n = 0
+        self.samples = []
+        self.max_bad = max_bad
+
+    def case(self, key, nontrivial=True, sample=None):
+        self.n += 1
+        if nontrivial:
+            k = key if isinstance(key, (str, bytes)) else repr(key)
+            if isinstance(k, str):
+                k = k.encode('utf-8', 'surrogatepass')
+            self.keys.add(hashlib.md5(k).digest()[:6])
+        if sample is not None and len(self.samples) < 3:
+            self.samples.append(sample)
+
+    def stat(self, name, n=1):
+        self.stats[name] = self.stats.get(name, 0) + n
+
+    def bad(self, mech, msg, detail=None):
+        self.nbad += 1
+        if len(self.bads) < self.max_bad or mech not in [b[0] for b in self.bads]:
+            self.bads.append([mech, msg, detail])
+
+    def result(self):
+        import base64
+        return {'n': self.n, 'bad': self.bads, 'nbad': self.nbad, 'stats': self.stats,
+                'keys': base64.b64encode(b''.join(sorted(self.keys))).decode(),
+                'samples': self.samples}
+
+
+def absorb(ctx, case, obs, replay_of=None):
+    """Parent side of ChildRep: merge counters, distinct keys, samples and
+    turn reported mismatches into violations.  replay_of(detail) -> replay
+    case for a mismatch (default: the whole case)."""
+    import base64
+    ctx.evaluations += obs['n']
+    raw = base64.b64decode(obs['keys'])
+    for i in range(0, len(raw), 6):
+        k = raw[i:i + 6]
+        ctx.nontrivial_keys.add(k)
+        ctx.distinct_keys.add(k)
+    for k, v in obs['stats'].items():
+        ctx.count(k, v)
+    for s in obs['samples']:
+        if len(ctx.samples) < ctx.max_samples:
+            ctx.samples.append(s)
+    for mech, msg, detail in obs['bad']:
+        rd = replay_of(detail) if replay_of else case
+        if mech.startswith('harness'):
+            ctx.inconclusive(msg)
+        else:
+            ctx.violation(mech, msg, rd)
